@@ -17,10 +17,21 @@ def machine_jobs(tier, roots=None, kinds=("entry", "scanner")):
     that did) is interpreted from its real body there, so the effect of a scanner defect on the
     grammar properties is seen as well."""
     cfgs = [("B0", "debug")]
+    cross = []
     if tier == "thorough":
         cfgs += [("B0", "release"), ("B1", "debug"), ("B2", "debug"), ("B3", "debug"), ("B4", "debug"), ("B5", "debug")]
+        # other targets (type-checked with -Zbuild-std; nothing is run): 32-bit x86, aarch64 NEON,
+        # big-endian 64- and 32-bit SWAR -- scanner bodies only
+        cross = [("B6", "debug"), ("B7", "debug"), ("B8", "debug"), ("B9", "debug")]
     th = F.tree_hash()
     jobs, results = [], []
+    for cfg, prof in cross:
+        if "scanner" not in kinds:
+            continue
+        prog = Program(F.get_facts(cfg, prof, th))
+        sj = R.scanner_jobs(prog, cfg, prof)
+        jobs += sj
+        results += R.run_jobs(sj, budget=QUICK_BUDGET, th=th)
     for cfg, prof in cfgs:
         prog = Program(F.get_facts(cfg, prof, th))
         sj = R.scanner_jobs(prog, cfg, prof)
